@@ -44,8 +44,36 @@ def run(p, report, tier):
                 "wrapped encoder's result on m and the sentinel on ~m, with the sentinel pair swapped between the two "
                 "methods", floor=6)
     report.rule("R1.7", "definite assignment in the label utilities", floor=5)
+    report.rule("R16.4", "every return of is_unlabeled has, element for element, the shape of y: it is an elementwise "
+                "function of y (comparison, isnan, array(y, dtype=bool), ~) or a constructor given y's full shape "
+                "(never len(y)), so one- and two-dimensional and empty inputs keep their shape", floor=3)
+    report.rule("R16.5", "sibling agreement: wherever the common dtype of labels and sentinel is computed "
+                "(is_unlabeled, both branches of ExtLabelEncoder.fit) it is the dtype of an ARRAY built from labels and sentinel together "
+                "(np.append / concatenate / hstack / array) - the construction that widens a string dtype to hold the sentinel", floor=3)
+    n_dt = 0
+    for modname in (MOD, "skactiveml.utils._label_encoder"):
+        m = p.modules[modname]
+        for n in ast.walk(m.tree):
+            if isinstance(n, ast.Assign) and any(x in ast.unparse(n.value) for x in ("missing_label",)) and any(
+                    "dtype" in ast.unparse(t) or "target_type" in ast.unparse(t) for t in n.targets):
+                v = n.value
+                ok = isinstance(v, ast.Attribute) and v.attr == "dtype" and isinstance(v.value, ast.Call) \
+                    and c01.callname(v.value) in ("append", "concatenate", "hstack", "array", "asarray") \
+                    and any("missing_label" in ast.unparse(a) for a in v.value.args)
+                n_dt += 1
+                report.add("R16.5", modname.split(".")[-1], f"common dtype `{norm_stmt(n, 80)}`", f"{m.relpath}:{n.lineno}", ok,
+                           detail="np.append(labels, sentinel).dtype" if ok else
+                           "computed differently from its siblings: e.g. result_type of a str scalar does not widen a "
+                           "'<U1' class dtype to hold a longer sentinel, which is then truncated")
     il = p.get_func(MOD, "is_labeled")
     iu = p.get_func(MOD, "is_unlabeled")
+    from ..carry import MustCarry
+    yname = iu.params()[0]
+    for rn, ok in MustCarry(iu.node, yname, nonnull=[yname], mode="shape").run():
+        report.add("R16.4", iu.qual, f"`{norm_stmt(rn, 70)}` keeps the shape of the labels", f"{iu.file}:{rn.lineno}", ok,
+                   detail="elementwise in y" if ok else
+                   "the returned mask is not built element for element from y (e.g. sized by len(y)): a two-"
+                   "dimensional or empty (0, m) input comes back with another shape")
     li = p.get_func(MOD, "labeled_indices")
     ui = p.get_func(MOD, "unlabeled_indices")
     params = ["y", "missing_label"]
